@@ -81,6 +81,18 @@ def step (w : List String) : String :=
         String.intercalate "," ((Impl.adjustDefinedNames sheet ⟨d, n, o⟩ nm ds).map hexS)
       else "bad-op"
     | _, _, _, _, _ => "bad-op"
+  | "shf" :: dc :: dr :: toks =>
+    match parseInt? dc, parseInt? dr, parseToks toks with
+    | some dCol, some dRow, some ts => hexS (Impl.parseSharedFormula dCol dRow ts)
+    | _, _, _ => "bad-op"
+  | ["cells", h] =>
+    -- the cells of a reference in the order the evaluator reads them, as "col.row,col.row,…"
+    match unhexS h with
+    | some s =>
+      match Spec.parseRef s with
+      | some r => String.intercalate "," ((Spec.refCells r).map (fun p => s!"{p.1}.{p.2}"))
+      | none => "unparsed"
+    | none => "bad-op"
   | ["esc", h] =>
     match unhexS h with
     | some s => hexS (Impl.escapeSheetName s)
